@@ -198,9 +198,8 @@ Proof.
   intros Hw. assert (Hlen : length (show_num x) <= 9).
   { destruct x as [[neg ip] fr]. apply Hw. }
   exists (padl 9 (show_num x)). split; [apply fmt_split; auto|]. split; [apply padl_length; auto|].
-  unfold padl. rewrite <- app_assoc. apply (parse_float_show _ _ x 6 9); auto.
-  - apply repeat_spaces.
-  - repeat constructor.
+  unfold padl. rewrite <- app_assoc.
+  apply (parse_float_show _ _ x 6 9); auto; try apply repeat_spaces; repeat constructor.
 Qed.
 
 Lemma parse_vec_line_print a b c : wf_c a -> wf_c b -> wf_c c ->
@@ -232,6 +231,11 @@ Proof. intros H. destruct k; cbn [try_down]; rewrite H; reflexivity. Qed.
 Lemma mseq_Ch p re c s cur cs : p c = true ->
   mseq (Ch p :: re) (c :: s) cur cs = mseq re s (rec cur [c]) cs.
 Proof. intros H. cbn [mseq]. rewrite H. reflexivity. Qed.
+
+Lemma mseq_Open re s cur cs : mseq (Open :: re) s cur cs = mseq re s (Some []) cs.
+Proof. reflexivity. Qed.
+Lemma mseq_Close re s b cs : mseq (Close :: re) s (Some b) cs = mseq re s None (b :: cs).
+Proof. reflexivity. Qed.
 
 Lemma mseq_Star p re ds rest cur cs R :
   Forall (fun c => p c = true) ds -> run p rest = 0 ->
@@ -282,7 +286,7 @@ Lemma mseq_num re x k w rest cs R : wf_num k w x -> run is_digit rest = 0 ->
   mseq (re_num ++ re) (show_num x ++ rest) None cs = Some R.
 Proof.
   destruct x as [[neg ip] fr]. intros [Hne [Hi [Hf [Hk [Hk1 _]]]]] Hr H.
-  unfold re_num. cbn [app]. cbn [mseq].
+  unfold re_num. cbn [app]. rewrite mseq_Open.
   assert (Hbody : forall buf,
     mseq re rest None ((buf ++ chars_of ip ++ ["."%char] ++ chars_of fr) :: cs) = Some R ->
     mseq (Plus is_digit :: Opt (is_c "."%char) :: Star is_digit :: Close :: re)
@@ -290,7 +294,7 @@ Proof.
   { intros buf HR.
     apply mseq_Plus; [destruct ip; [congruence|discriminate]|apply chars_all_digit; auto|reflexivity|].
     apply mseq_Opt_take; [reflexivity|]. cbn [rec].
-    apply mseq_Star; [apply chars_all_digit; auto|auto|]. cbn [rec mseq].
+    apply mseq_Star; [apply chars_all_digit; auto|auto|]. cbn [rec]. rewrite mseq_Close.
     rewrite <- !app_assoc. exact HR. }
   unfold show_num in *. destruct neg.
   - cbn [app]. apply mseq_Opt_take; [reflexivity|]. cbn [rec app].
@@ -312,6 +316,14 @@ Proof.
   unfold chars_of; cbn [map app run]. rewrite char_not_space by auto. reflexivity.
 Qed.
 
+Lemma space_not_digit c : is_space c = true -> is_digit c = false.
+Proof.
+  unfold is_space, is_digit. set (n := nat_of_ascii c). intros H.
+  destruct (48 <=? n) eqn:E1; [|reflexivity]. apply Nat.leb_le in E1.
+  rewrite orb_true_iff, !andb_true_iff, !Nat.leb_le in H.
+  destruct (n <=? 57) eqn:E2; [|reflexivity]. exfalso. lia.
+Qed.
+
 Definition sp_all (l : line) : Prop := Forall (fun c => is_space c = true) l.
 
 Lemma q_core_match sp1 sp2 sp3 x y z :
@@ -328,23 +340,17 @@ Proof.
   apply mseq_Star; [auto|apply (run_space_show x 4 11); auto|]. cbn [rec].
   apply (mseq_num _ x 4 11); auto.
   { destruct sp2 as [|c r]; [congruence|]. inversion S2; subst. cbn [app run].
-    destruct (is_digit c) eqn:E; [|reflexivity]. exfalso. clear - H1 E.
-    unfold is_space, is_digit in *. destruct (nat_of_ascii c) as [|n]; [discriminate|].
-    repeat (destruct n as [|n]; [cbn in *; congruence|]). cbn in *.
-    rewrite ?andb_false_r in *. cbn in *. discriminate. }
-  cbn [app mseq].
+    rewrite space_not_digit by auto. reflexivity. }
+  cbn [app].
   apply mseq_Plus; [auto|auto|apply (run_space_show y 4 11); auto|]. cbn [rec].
   apply (mseq_num _ y 4 11); auto.
   { destruct sp3 as [|c r]; [congruence|]. inversion S3; subst. cbn [app run].
-    destruct (is_digit c) eqn:E; [|reflexivity]. exfalso. clear - H1 E.
-    unfold is_space, is_digit in *. destruct (nat_of_ascii c) as [|n]; [discriminate|].
-    repeat (destruct n as [|n]; [cbn in *; congruence|]). cbn in *.
-    rewrite ?andb_false_r in *. cbn in *. discriminate. }
-  cbn [app mseq].
+    rewrite space_not_digit by auto. reflexivity. }
+  cbn [app].
   apply mseq_Plus; [auto|auto| |].
   { rewrite <- (app_nil_r (show_num z)). apply (run_space_show z 4 11); auto. }
   cbn [rec]. rewrite <- (app_nil_r (show_num z)) at 1.
-  apply (mseq_num _ z 4 11); auto. reflexivity.
+  apply (mseq_num _ z 4 11); auto; try reflexivity.
 Qed.
 
 (* ------------------------------------------------------------------ the q line *)
@@ -378,7 +384,7 @@ Proof.
                 (" "%char :: repeat " "%char k2 ++ show_num y) ++
                 " "%char :: repeat " "%char k3 ++ show_num z = [" "%char] ++ core ++ []).
   { unfold core. cbn [lit list_ascii_of_string app]. rewrite app_nil_r. rewrite <- !app_assoc.
-    cbn [app]. rewrite <- !app_assoc. reflexivity. }
+    cbn [app]. rewrite <- ?app_assoc. reflexivity. }
   rewrite E. rewrite strip_core.
   - rewrite (search_first _ _ [show_num x; show_num y; show_num z]).
     + rewrite <- (app_nil_r (show_num x)), <- (app_nil_l (show_num x ++ [])).
@@ -422,9 +428,9 @@ Proof.
   rewrite !mseq_Ch by reflexivity. cbn [rec].
   apply (mseq_Star is_space _ [" "%char] ("("%char :: _)); [repeat constructor|reflexivity|]. cbn [rec].
   rewrite mseq_Ch by reflexivity. cbn [rec].
-  apply mseq_Star; [auto|apply run_space_chars; auto|]. cbn [rec mseq].
+  apply mseq_Star; [auto|apply run_space_chars; auto|]. cbn [rec]. rewrite mseq_Open.
   apply mseq_Plus; [destruct i; [congruence|discriminate]|apply chars_all_digit; auto|reflexivity|].
-  cbn [rec mseq app].
+  cbn [rec app]. rewrite mseq_Close. rewrite mseq_Ch by reflexivity. cbn [rec].
   apply (mseq_Star is_space _ [" "%char] ("="%char :: _)); [repeat constructor|reflexivity|]. cbn [rec].
   rewrite mseq_Ch by reflexivity. cbn [rec].
   apply mseq_Star; [auto|apply (run_space_show x 6 14); auto|]. cbn [rec].
@@ -465,10 +471,10 @@ Proof.
   assert (Hlast : nsp (last (mode_core sp0 sp1 sp2 i x y) " "%char)).
   { unfold mode_core. cbn [lit list_ascii_of_string].
     repeat (rewrite last_app_ne by ne_len). reflexivity. }
-  rewrite strip_core; auto; [|apply repeat_spaces|constructor].
+  rewrite strip_core by (auto; try apply repeat_spaces; constructor).
   rewrite <- (app_nil_r (mode_core sp0 sp1 sp2 i x y)) at 1.
   rewrite <- (app_nil_l (mode_core sp0 sp1 sp2 i x y ++ [])).
-  rewrite strip_core; auto; try constructor.
+  rewrite strip_core by (auto; constructor).
   rewrite (search_first _ _ [chars_of i; show_num x; show_num y]).
   - rewrite parse_int_chars by auto.
     rewrite <- (app_nil_r (show_num x)), <- (app_nil_l (show_num x ++ [])).
@@ -479,3 +485,72 @@ Proof.
   - apply mode_core_match; auto; try apply repeat_spaces;
       (constructor; [reflexivity|apply repeat_spaces]).
 Qed.
+
+(* ------------------------------------------------------------------ blocks *)
+Definition wf_mode (np : nat) (m : mode) : Prop :=
+  wf_hdr (fst m) /\ length (snd m) = np /\ Forall wf_c (snd m).
+Definition wf_qpoint (np : nat) (q : qpoint) : Prop :=
+  wf_q (fst q) /\ length (snd q) = np /\ Forall (wf_mode np) (snd q).
+Definition well_formed (nq np : nat) (d : list qpoint) : Prop :=
+  np mod 3 = 0 /\ length d = nq /\ Forall (wf_qpoint np) d.
+
+Lemma read_vecs_print : forall k vs rest, length vs = 3 * k -> Forall wf_c vs ->
+  read_vecs k (print_vecs vs ++ rest) = Some (vs, rest).
+Proof.
+  induction k as [|k IH]; intros vs rest Hl Hw.
+  - destruct vs; [reflexivity|discriminate].
+  - destruct vs as [|a [|b [|c vs]]]; try (cbn in Hl; lia).
+    inversion Hw as [|? ? Ha Hw1]; subst. inversion Hw1 as [|? ? Hb Hw2]; subst.
+    inversion Hw2 as [|? ? Hc Hw3]; subst.
+    cbn [print_vecs app read_vecs]. rewrite parse_vec_line_print by auto.
+    rewrite IH; [reflexivity| cbn in Hl; lia | auto].
+Qed.
+
+Lemma read_modes_print : forall np ms rest, np mod 3 = 0 -> Forall (wf_mode np) ms ->
+  read_modes (length ms) np (flat_map print_mode ms ++ rest) = Some (ms, rest).
+Proof.
+  intros np ms rest H3. induction ms as [|m ms IH]; intros Hw; [reflexivity|].
+  inversion Hw as [|? ? Hm Hw']; subst. destruct Hm as [Hh [Hl Hv]].
+  cbn [length flat_map read_modes]. unfold print_mode at 1. cbn [app].
+  rewrite parse_mode_line_print by auto.
+  rewrite <- app_assoc. rewrite read_vecs_print; auto.
+  - rewrite IH by auto. destruct m; reflexivity.
+  - rewrite Hl. pose proof (Nat.div_mod np 3 ltac:(lia)). lia.
+Qed.
+
+Lemma read_q_points_print : forall np d, np mod 3 = 0 -> Forall (wf_qpoint np) d ->
+  read_q_points (length d) np (print_matdyn d) = Some d.
+Proof.
+  intros np d H3. induction d as [|q d IH]; intros Hw; [reflexivity|].
+  inversion Hw as [|? ? Hq Hw']; subst. destruct Hq as [Hqq [Hl Hm]].
+  unfold print_matdyn in *. cbn [length flat_map]. unfold print_q at 1. cbn [app read_q_points].
+  rewrite parse_q_line_print by auto.
+  rewrite <- Hl at 1. rewrite <- app_assoc. rewrite read_modes_print by auto.
+  cbn [app]. rewrite IH by auto. destruct q; reflexivity.
+Qed.
+
+Lemma matdyn_roundtrip_l : forall nq np d, well_formed nq np d ->
+  parse_matdyn nq np (print_matdyn d) = Some d.
+Proof.
+  intros nq np d [H3 [Hl Hw]]. unfold parse_matdyn. rewrite <- Hl. apply read_q_points_print; auto.
+Qed.
+
+(** non-vacuity: one q-point, three modes *)
+Definition ex_c : cnum := ((true, [0], [2;1;1;2;0;8]), (false, [0], [0;0;0;0;0;0])).
+Definition ex_mode (i : nat) : mode :=
+  (([i], (true, [0], [0;1;8;7;8;8]), (false, [1;1;6], [7;4;7;0;0;0])), [ex_c; ex_c; ex_c]).
+Definition ex_d : list qpoint :=
+  [(((false, [0], [0;0;0;0]), (true, [0], [1;2;5;8]), (false, [1;2], [0;3;4;7])), [ex_mode 1; ex_mode 2; ex_mode 3])].
+Example ex_well_formed : well_formed 1 3 ex_d.
+Proof.
+  unfold well_formed, ex_d, wf_qpoint, wf_mode, wf_q, wf_hdr, wf_c, wf_num, digits_ok, ex_mode, ex_c.
+  cbn [fst snd length show_num app chars_of map].
+  repeat (split || constructor || discriminate || lia).
+Qed.
+
+(** outside the width hypothesis the reader silently misreads: a component -12.345678 is a
+    legal f10.6 field but its sign falls in the column the reader skips *)
+Example wide_component_misread :
+  parse_vec_line (print_vec_line ((true, [1;2], [3;4;5;6;7;8]), snd ex_c) ex_c ex_c)
+  = Some [((false, [1;2], [3;4;5;6;7;8]), snd ex_c); ex_c; ex_c].
+Proof. vm_compute. reflexivity. Qed.
